@@ -19,7 +19,9 @@ CONSTANTS
     MaxI,       \* bound on the creation ordinal per class
     Bound,      \* [class |-> creation bound] (model checking only)
     GenKind,    \* "int" (1, 2, 3, ...), "user" (UserIds), "uuid" (any fresh non-null)
-    UserIds     \* ids a user-supplied generator hands out, in order
+    UserIds,    \* ids a user-supplied generator hands out, in order
+    Vals,       \* [type |-> set of tokens] written by the value alphabet (model checking only)
+    Alpha       \* which groups of calls the value alphabet contains (model checking only)
 
 VARIABLES
     pool,       \* [class -> sequence of live ordinals, storage order]
@@ -28,11 +30,12 @@ VARIABLES
     fwd,        \* [assoc index -> [referred ordinal -> sequence of referring ordinals]]
     bwd,        \* [assoc index -> [referring ordinal -> sequence of referred ordinals]]
     gen,        \* number of ids the generator has handed out
-    used,       \* set of id tokens handed out so far
+    used,       \* set of id tokens handed out so far (defaulted values, next() results)
+    pk,         \* the id a peek has shown and the next draw must deliver ("" when unknown)
     res         \* outcome of the last call
 
-mvars == <<pool, born, val, fwd, bwd, gen, used>>
-vars == <<pool, born, val, fwd, bwd, gen, used, res>>
+mvars == <<pool, born, val, fwd, bwd, gen, used, pk>>
+vars == <<pool, born, val, fwd, bwd, gen, used, pk, res>>
 
 -----------------------------------------------------------------------------
 (* helpers *)
@@ -90,6 +93,7 @@ Init ==
     /\ bwd = [a \in AIdx |-> [i \in Ord |-> <<>>]]
     /\ gen = 0
     /\ used = {}
+    /\ pk = ""
     /\ res = "none"
 
 Reject(r) == res' = r /\ UNCHANGED mvars
@@ -108,27 +112,84 @@ KnownType(t) == t \in {"BOOLEAN", "INTEGER", "REAL", "STRING", "UNIQUE_ID"}
 FirstUnknown(c) == LET bad == {i \in DOMAIN NonRef(c) : ~KnownType(AttrType(c, NonRef(c)[i]))}
                    IN IF bad = {} THEN 0 ELSE Min(bad)
 
-New(c, pos, kw) ==
+\* ids: the id drawn for each slot of IdSlots(c); g2: ids handed out afterwards.
+\* A slot overridden by a positional or keyword value does not show its id.
+Overridden(c, n, pos, kw) == Index(AttrNames(c), n) <= Len(pos) \/ n \in DOMAIN kw
+NewIds(c, pos, kw, ids, g2) ==
     LET i == born[c] + 1
         nr == NonRef(c)
         slots == IdSlots(c)
         dflt == [n \in Rng(nr) |->
-                    IF AttrType(c, n) = "UNIQUE_ID"
-                    THEN GenId(gen + Index(slots, n))
+                    IF AttrType(c, n) = "UNIQUE_ID" THEN ids[Index(slots, n)]
                     ELSE Default(AttrType(c, n))]
         names == AttrNames(c)
         posv == [n \in Rng(nr) |->
                     IF Index(names, n) <= Len(pos) THEN pos[Index(names, n)] ELSE dflt[n]]
         final == [n \in Rng(nr) |-> IF n \in DOMAIN kw THEN kw[n] ELSE posv[n]]
+        shown == {ids[k] : k \in {j \in DOMAIN slots : ~Overridden(c, slots[j], pos, kw)}}
     IN /\ born[c] < MaxI
        /\ FirstUnknown(c) = 0
        /\ born' = [born EXCEPT ![c] = i]
        /\ pool' = [pool EXCEPT ![c] = Append(@, i)]
        /\ val' = [val EXCEPT ![c][i] = final]
-       /\ gen' = gen + Len(slots)
-       /\ used' = used \cup {GenId(gen + k) : k \in 1..Len(slots)}
+       /\ gen' = g2
+       /\ used' = used \cup shown
+       /\ pk' = IF Len(slots) > 0 THEN "" ELSE pk
        /\ UNCHANGED <<fwd, bwd>>
        /\ res' = "none"
+
+\* what the property requires of the ids that show: fresh, non-null, distinct, and
+\* (for the counting generators) among those handed out by this call
+IdsOK(c, pos, kw, ids, g2) ==
+    LET slots == IdSlots(c)
+        vis == {j \in DOMAIN slots : ~Overridden(c, slots[j], pos, kw)}
+    IN /\ Len(ids) = Len(slots)
+       /\ g2 >= gen + Cardinality(vis)
+       /\ \A j \in vis : ids[j] # "u:0" /\ ids[j] \notin used
+       /\ \A j, k \in vis : ids[j] = ids[k] => j = k
+       /\ GenKind # "uuid" => \A j \in vis : \E k \in (gen + 1)..g2 : ids[j] = GenId(k)
+       /\ (pk # "" /\ vis # {}) => ids[Min(vis)] = pk
+
+\* the generator draws one id per slot, in attribute order (what the code does)
+New(c, pos, kw) ==
+    NewIds(c, pos, kw, [k \in 1..Len(IdSlots(c)) |-> GenId(gen + k)], gen + Len(IdSlots(c)))
+
+\* an attribute of unknown type: MetaException.  (The instance is in the pool
+\* already when the exception is raised; the property only fixes the outcome.)
+NewUnknown(c) ==
+    /\ FirstUnknown(c) > 0
+    /\ res' = "MetaException"
+
+(* attribute access by declared name n (the spelling used by the caller does not *)
+(* appear: every spelling addresses the value stored under the declared name)   *)
+SetAttr(c, i, n, v) ==
+    IF n \in RefAttrs(c) THEN Reject("MetaException")
+    ELSE /\ val' = [val EXCEPT ![c][i][n] = v]
+         /\ res' = "none"
+         /\ UNCHANGED <<pool, born, fwd, bwd, gen, used, pk>>
+
+\* deleting a stored value makes the attribute absent; deleting what is not stored
+\* (absent already, or referential) changes nothing whatever the call answers
+Stored(c, i, n) == n \notin RefAttrs(c) /\ val[c][i][n] # "absent"
+DelAttr(c, i, n) ==
+    IF Stored(c, i, n)
+    THEN /\ val' = [val EXCEPT ![c][i][n] = "absent"]
+         /\ res' = "none"
+         /\ UNCHANGED <<pool, born, fwd, bwd, gen, used, pk>>
+    ELSE /\ UNCHANGED mvars
+         /\ res' \in {"none", "AttributeError", "KeyError"}
+
+\* the id generator: peek shows the id the next draw delivers and never advances
+GenNext(id) ==
+    /\ IF GenKind = "uuid" THEN id # "u:0" /\ id \notin used /\ (pk # "" => id = pk)
+                           ELSE id = GenId(gen + 1)
+    /\ gen' = gen + 1 /\ used' = used \cup {id} /\ pk' = "" /\ res' = id
+    /\ UNCHANGED <<pool, born, val, fwd, bwd>>
+GenPeek(id) ==
+    /\ IF GenKind = "uuid" THEN id # "u:0" /\ id \notin used /\ (pk # "" => id = pk)
+                           ELSE id = GenId(gen + 1)
+    /\ pk' = id /\ res' = id
+    /\ UNCHANGED <<pool, born, val, fwd, bwd, gen, used>>
 
 (* Link resolution: the first association (definition order) with this number   *)
 (* whose referred->referring direction matches (kinds of x and y, phrase), else *)
@@ -155,7 +216,7 @@ Relate(cx, ix, cy, iy, rel, ph) ==
        ELSE /\ fwd' = [fwd EXCEPT ![a][t] = Append(@, s)]
             /\ bwd' = [bwd EXCEPT ![a][s] = Append(@, t)]
             /\ res' = "True"
-            /\ UNCHANGED <<pool, born, val, gen, used>>
+            /\ UNCHANGED <<pool, born, val, gen, used, pk>>
 
 Unrelate(cx, ix, cy, iy, rel, ph) ==
     LET f == FindLink(cx, ix, cy, iy, rel, ph)
@@ -165,7 +226,7 @@ Unrelate(cx, ix, cy, iy, rel, ph) ==
        ELSE /\ fwd' = [fwd EXCEPT ![a][t] = Drop(@, s)]
             /\ bwd' = [bwd EXCEPT ![a][s] = Drop(@, t)]
             /\ res' = "True"
-            /\ UNCHANGED <<pool, born, val, gen, used>>
+            /\ UNCHANGED <<pool, born, val, gen, used, pk>>
 
 \* relate / unrelate with None in place of an instance
 RelateNone == Reject("False")
@@ -182,7 +243,7 @@ Delete(c, i) ==
                       IF Src(a) = c /\ k = i THEN <<>>
                       ELSE IF Tgt(a) = c THEN Drop(bwd[a][k], i) ELSE bwd[a][k]]]
          /\ res' = "none"
-         /\ UNCHANGED <<born, val, gen, used>>
+         /\ UNCHANGED <<born, val, gen, used, pk>>
 
 -----------------------------------------------------------------------------
 (* The history alphabet of C02: creation with defaults, relate / unrelate in    *)
@@ -212,6 +273,57 @@ Next ==
     \/ \E x \in AllInsts : HDelete(x)
 
 Spec == Init /\ [][Next]_vars
+
+-----------------------------------------------------------------------------
+(* The value alphabet (C10, C19, C09): creation with every mix of positional,   *)
+(* keyword and omitted arguments, attribute writes and deletions (referential   *)
+(* attributes included: they are rejected), generator peek/next, plus the link  *)
+(* operations above.                                                            *)
+AllVals == UNION {Vals[ty] : ty \in DOMAIN Vals}
+TypedVals(ty) == IF ty \in DOMAIN Vals THEN Vals[ty] ELSE {}
+\* positional arguments stop before the first referential attribute
+MaxPos(c) == LET r == {j \in DOMAIN AttrNames(c) : AttrNames(c)[j] \in RefAttrs(c)}
+             IN IF r = {} THEN Len(AttrNames(c)) ELSE Min(r) - 1
+PosOK(c, pos) == Len(pos) <= MaxPos(c) /\ \A j \in DOMAIN pos : pos[j] \in TypedVals(AttrType(c, AttrNames(c)[j]))
+KwOK(c, kw) == DOMAIN kw \subseteq Rng(NonRef(c)) /\ \A n \in DOMAIN kw : kw[n] \in TypedVals(AttrType(c, n))
+MaxPosAll == CHOOSE m \in 0..20 : (\E c \in ClassSet : MaxPos(c) = m) /\ \A c \in ClassSet : MaxPos(c) <= m
+AllNames == UNION {Rng(AttrNames(c)) : c \in ClassSet}
+PosSetC(c) == {p \in UNION {[1..k -> AllVals] : k \in 0..MaxPos(c)} : PosOK(c, p)}
+KwSetC(c) == {f \in UNION {[S -> AllVals] : S \in SUBSET Rng(NonRef(c))} : KwOK(c, f)}
+
+VNew(c, pos, kw) == "newv" \in Alpha /\ born[c] < Bound[c] /\ FirstUnknown(c) = 0 /\ PosOK(c, pos) /\ KwOK(c, kw)
+                    /\ New(c, pos, kw)
+VNewD(c) == "new" \in Alpha /\ HNew(c)
+VNewUnknown(c) == "unknown" \in Alpha /\ born[c] < Bound[c] /\ NewUnknown(c) /\ UNCHANGED mvars
+VSetAttr(x, n, v) == "set" \in Alpha /\ x \in LiveInsts /\ n \in Rng(AttrNames(x[1]))
+                     /\ v \in TypedVals(AttrType(x[1], n)) /\ SetAttr(x[1], x[2], n, v)
+VDelAttr(x, n) == "del" \in Alpha /\ x \in LiveInsts /\ n \in Rng(AttrNames(x[1])) /\ DelAttr(x[1], x[2], n)
+VGenNext == "gen" \in Alpha /\ GenKind # "uuid" /\ gen < 2 * MaxI /\ GenNext(GenId(gen + 1))
+VGenPeek == "gen" \in Alpha /\ GenKind # "uuid" /\ GenPeek(GenId(gen + 1))
+VRelate(x, y, r, p) == "link" \in Alpha /\ r # "R99" /\ p # "bogus" /\ HRelate(x, y, r, p)
+VUnrelate(x, y, r, p) == "link" \in Alpha /\ r # "R99" /\ p # "bogus" /\ HUnrelate(x, y, r, p)
+VDelete(x) == "delete" \in Alpha /\ HDelete(x)
+
+NextVal ==
+    \/ \E c \in ClassSet : \E pos \in PosSetC(c) : \E kw \in KwSetC(c) : VNew(c, pos, kw)
+    \/ \E c \in ClassSet : VNewD(c) \/ VNewUnknown(c)
+    \/ \E x \in AllInsts, n \in AllNames : (\E v \in AllVals : VSetAttr(x, n, v)) \/ VDelAttr(x, n)
+    \/ VGenNext \/ VGenPeek
+    \/ \E x \in AllInsts, y \in AllInsts, r \in RelIds, p \in PhraseSet : VRelate(x, y, r, p) \/ VUnrelate(x, y, r, p)
+    \/ \E x \in AllInsts : VDelete(x)
+
+SpecVal == Init /\ [][NextVal]_vars
+
+\* every stored value is addressed by its declared name only (C10): the state has
+\* exactly one entry per non-referential attribute of every instance ever created
+OneValuePerName == \A c \in ClassSet : \A i \in 1..born[c] : DOMAIN val[c][i] = Rng(NonRef(c))
+\* defaults by type, then positional, then keyword (C19): checked on the step
+DefaultsOK == [][\A c \in ClassSet : born'[c] = born[c] + 1 =>
+                  \A n \in Rng(NonRef(c)) :
+                     LET v == val'[c][born'[c]][n] IN
+                     \/ v \in AllVals                       \* supplied by the caller
+                     \/ (AttrType(c, n) = "UNIQUE_ID" /\ v \in used' /\ v \notin used)
+                     \/ (AttrType(c, n) # "UNIQUE_ID" /\ v = Default(AttrType(c, n)))]_vars
 
 -----------------------------------------------------------------------------
 (* Properties of the design (C02) *)
@@ -244,5 +356,5 @@ RefReadOK == \A a \in AIdx : \A s \in Live(Src(a)) :
                          ELSE Read(Tgt(a), bwd[a][s][1], Assocs[a].tkeys[k])
 
 \* defaulted ids are fresh and never null
-FreshIds == "u:0" \notin used /\ Cardinality(used) = gen
+FreshIds == "u:0" \notin used /\ Cardinality(used) <= gen
 =============================================================================
